@@ -102,13 +102,15 @@ class C03(Check):
                 continue
             for male in (False, True):
                 yield ("default", name, "hg19" if self.seed % 2 == 0 or self.tier == "thorough" else "hg38", male)
-        if self.tier == "thorough":
+        if True:      # CYP2D6 (0.4 s per solve): a seed-rotated handful in the quick tier, all pairs in the thorough tier
             wk = ("shipped", "cyp2d6")
             gene = worlds.gene_of(wk, "hg19")
             keep = [c for c in ("1", "5", "13", "61", "68", "141.1001") if c in gene.cn_configs]
-            for pair in itertools.combinations_with_replacement(keep, 2):
-                for k in (0, 1):
-                    yield ("vec", wk, 4, 0.1, (pair, k, 0), (), None)
+            allp = [(pair, k) for pair in itertools.combinations_with_replacement(keep, 2) for k in (0, 1)]
+            for i, (pair, k) in enumerate(allp):
+                if self.tier == "quick" and i % 6 != self.seed % 6:
+                    continue
+                yield ("vec", wk, 4, 0.1, (pair, k, 0), (), None)
 
     def successors(self, st):
         if st[0] != "vec":
